@@ -446,6 +446,8 @@ type Contract struct {
 	CallSiteEns  map[string][]*Clause // callee name -> facts assumed after each call in this function (trusted)
 	CallSiteMods map[string][]*Clause // callee name -> locations havocked at each call in this function (trusted)
 	Cancellable []*Clause           // func block: channels one of which every blocking wait of the function also waits on
+	AsName     string               // `option as <functype>`: the function is an instance of that function type ...
+	AsOnly     bool                 // ... and its contract says nothing else
 	Layouts    []WireLayout         // wire block: the field sequence of a message struct per protocol version
 	CloseOnly  []string             // type block: channel fields that are never sent on, only closed
 	FieldWrite map[string][]*Clause // type block: two-state obligations on every store to a field (self, was, now)
